@@ -133,6 +133,99 @@ var (
 	bn256P, _ = new(big.Int).SetString("65000549695646603732796438742359905742825358107623003571877145026864184071783", 10)
 )
 
+var (
+	edL, _    = new(big.Int).SetString("7237005577332262213973186563042994240857116359379907606001950938285454250989", 10)
+	p256N, _  = new(big.Int).SetString("115792089210356248762697446949407573529996955224135760342422259061068512044369", 10)
+	bn256N, _ = new(big.Int).SetString("65000549695646603732796438742359905742570406053903786389881062969044166799969", 10)
+)
+
+// boundaryInts: 0,1,2, a window around every modulus, powers of two around the candidate width.
+func boundaryInts(width int, mods []*big.Int) []*big.Int {
+	var vs []*big.Int
+	add := func(v *big.Int) {
+		if v.Sign() < 0 || v.BitLen() > 8*width {
+			return
+		}
+		for _, w := range vs {
+			if w.Cmp(v) == 0 {
+				return
+			}
+		}
+		vs = append(vs, new(big.Int).Set(v))
+	}
+	for i := int64(0); i <= 2; i++ {
+		add(big.NewInt(i))
+	}
+	for _, m := range mods {
+		for d := int64(-2); d <= 2; d++ {
+			add(new(big.Int).Add(m, big.NewInt(d)))
+		}
+		// twice the modulus and modulus + 2^k wrap candidates
+		add(new(big.Int).Lsh(m, 1))
+		add(new(big.Int).Add(new(big.Int).Lsh(m, 1), big.NewInt(1)))
+	}
+	one := big.NewInt(1)
+	for _, k := range []int{8*width - 1, 8 * width, 8*width - 2, 8*width - 8} {
+		pw := new(big.Int).Lsh(one, uint(k))
+		add(new(big.Int).Sub(pw, one))
+		add(pw)
+		add(new(big.Int).Add(pw, one))
+	}
+	for _, m := range mods[:1] {
+		bl := m.BitLen()
+		pw := new(big.Int).Lsh(one, uint(bl))
+		add(new(big.Int).Sub(pw, one))
+		add(pw)
+		add(new(big.Int).Lsh(one, uint(bl-1)))
+	}
+	return vs
+}
+
+// boundaryBlocks: one candidate block per boundary integer in the group's candidate layout.
+func boundaryBlocks(e eg, mods []*big.Int) [][]byte {
+	width := e.cand
+	if e.model == "p256" {
+		width = 32
+	}
+	var out [][]byte
+	for _, v := range boundaryInts(width, mods) {
+		b := v.FillBytes(make([]byte, width))
+		if e.model == "ed" { // little-endian y with the sign of x in the top bit
+			for i, j := 0, len(b)-1; i < j; i, j = i+1, j-1 {
+				b[i], b[j] = b[j], b[i]
+			}
+			out = append(out, b)
+			if b[31]&0x80 == 0 {
+				c := append([]byte{}, b...)
+				c[31] |= 0x80
+				out = append(out, c)
+			}
+			continue
+		}
+		out = append(out, b)
+	}
+	if e.model == "ed" {
+		// non-canonical encodings p+y of small y (y = 0, 1: order 4 and the identity), points of
+		// order 2, 4, 8 and their sign variants
+		for y := int64(3); y <= 18; y += 5 {
+			b := new(big.Int).Add(edP, big.NewInt(y)).FillBytes(make([]byte, 32))
+			for i, j := 0, 31; i < j; i, j = i+1, j-1 {
+				b[i], b[j] = b[j], b[i]
+			}
+			out = append(out, b)
+		}
+		for _, h := range []string{
+			"26e8958fc2b227b045c3f489f2ef98f0d5dfac05d3c63339b13802886d53fc05",
+			"c7176a703d4dd84fba3c0b760d10670f2a2053fa2c39ccc64ec7fd7792ac037a",
+			"26e8958fc2b227b045c3f489f2ef98f0d5dfac05d3c63339b13802886d53fc85",
+			"c7176a703d4dd84fba3c0b760d10670f2a2053fa2c39ccc64ec7fd7792ac03fa",
+		} {
+			out = append(out, mustHex(h))
+		}
+	}
+	return out
+}
+
 func p256CurveP() *big.Int {
 	v, _ := new(big.Int).SetString("115792089210356248762697446949407573530086143415290314195533631308867097853951", 10)
 	return v
@@ -312,7 +405,7 @@ func (c *ctx) embedOracle(e eg, data []byte, pick bool, buf []byte, class string
 	if pick {
 		op = "Pick"
 	}
-	in := map[string]interface{}{"group": e.name, "op": op, "data": hexOrNil(data), "stream_class": class, "stream_prefix": vh.Hex(buf[:4*e.cand])}
+	in := map[string]interface{}{"group": e.name, "op": op, "data": hexOrNil(data[:min(len(data), 64)]), "data_len": len(data), "stream_class": class, "stream_prefix": vh.Hex(buf[:4*e.cand])}
 	res, P, msg := runEmbed(e, data, pick, buf)
 	if !res.ok {
 		if unsupported(msg) {
@@ -634,7 +727,7 @@ func main() {
 	o := vh.ParseFlags()
 	rng := vh.NewRng(o.Seed)
 	rep := vh.NewReport("C17", o.Seed, o.Tier)
-	rep.Rule = "Embed(data, stream) for every group supporting it, data = nil / empty / every length 0..EmbedLen+8, streams = seeded BLAKE2Xb output with all-zero / all-0xff / 0xff-high-bytes prefixes and streams whose first candidates are refused; Pick on all 20 group instances; hash-to-group on every hashable group with messages 0..300 and tags 1..300 bytes. Oracles: q*P = O, canonical on-curve coordinates (independent big.Int check), same consumed bytes => same point, Data() = stored data before and after Marshal/Unmarshal, error for length fields > EmbedLen, distinct data/messages/tags => distinct points, RFC 9380 vectors. Model comparison: exact point bytes, stream bytes consumed, Data() results (Ed25519 x3, P-256, BN256 G1, QR-512), expand_message_xmd and edwards25519 Hash outputs. distinct = distinct (group, data, stream) or (group, message, tag); all are non-trivial"
+	rep.Rule = "Embed(data, stream) for every group supporting it, data = nil / empty / every length 0..EmbedLen+8 and long data (255..513, 65535..65537+EmbedLen, 2^17, 2^20+1, random up to 70000 bytes), streams = seeded BLAKE2Xb output with all-zero / all-0xff / 0xff-high-bytes prefixes, streams whose first candidates are refused, and streams whose first or second candidate block is a boundary value (0,1,2, p-2..p+2, 2p, group order +-2, 2^k, 2^k+-1, non-canonical and small-order Ed25519 encodings, each sign variant; also with data laid over it); Pick on all 20 group instances; hash-to-group on every hashable group with messages 0..300 and tags 1..300 bytes. Oracles: q*P = O, canonical on-curve coordinates (independent big.Int check), same consumed bytes => same point, Data() = stored data before and after Marshal/Unmarshal, error for length fields > EmbedLen, distinct data/messages/tags => distinct points, RFC 9380 vectors. Model comparison: exact point bytes, stream bytes consumed, Data() results (Ed25519 x3, P-256, BN256 G1, QR-512), expand_message_xmd and edwards25519 Hash outputs. distinct = distinct (group, data, stream) or (group, message, tag); all are non-trivial"
 	cf := &vh.CaseFile{Header: "From Kyber Require Import Embed.EmbedRun.", Type: "case", Runner: "mismatches"}
 	c := &ctx{rep: rep, seen: map[string]map[string]string{}}
 	id := 0
@@ -668,14 +761,15 @@ func main() {
 		kind   string
 		per    int
 		sparse bool // quick tier: only the edge lengths
+		bnd    []*big.Int
 	}{
 		{[]eg{{"ed25519", edS, false, "ed", 32}, {"ed25519+vartime", edS, true, "ed", 32},
-			{"ed25519vartime-pkg", edwards25519vartime.NewBlakeSHA256Ed25519(false), false, "ed", 32}}, "CEdEmbed #", 2, false},
-		{[]eg{{"p256", p256.NewBlakeSHA256P256(), false, "p256", 33}}, "CWEmbed # 0", 10, false},
-		{[]eg{{"bn256.G1", bn256.NewSuite().G1(), false, "bn256", 32}}, "CWEmbed # 1", 10, false},
-		{[]eg{{"qr512", qr, false, "qr", 64}}, "CQrEmbed # " + vh.CoqZ(qr.P) + " " + vh.CoqZ(qr.Q), 5, true},
-		{[]eg{{"qr128", qr128, false, "qr", 16}}, "CQrEmbed # " + vh.CoqZ(qr128.P) + " " + vh.CoqZ(qr128.Q), 13, false},
-		{[]eg{{"qr125", qr125, false, "qr", 16}}, "CQrEmbed # " + vh.CoqZ(qr125.P) + " " + vh.CoqZ(qr125.Q), 13, false},
+			{"ed25519vartime-pkg", edwards25519vartime.NewBlakeSHA256Ed25519(false), false, "ed", 32}}, "CEdEmbed #", 2, false, []*big.Int{edP, edL}},
+		{[]eg{{"p256", p256.NewBlakeSHA256P256(), false, "p256", 33}}, "CWEmbed # 0", 20, false, []*big.Int{p256P, p256N}},
+		{[]eg{{"bn256.G1", bn256.NewSuite().G1(), false, "bn256", 32}}, "CWEmbed # 1", 20, false, []*big.Int{bn256P, bn256N}},
+		{[]eg{{"qr512", qr, false, "qr", 64}}, "CQrEmbed # " + vh.CoqZ(qr.P) + " " + vh.CoqZ(qr.Q), 5, true, []*big.Int{qr.P, qr.Q}},
+		{[]eg{{"qr128", qr128, false, "qr", 16}}, "CQrEmbed # " + vh.CoqZ(qr128.P) + " " + vh.CoqZ(qr128.Q), 25, false, []*big.Int{qr128.P, qr128.Q}},
+		{[]eg{{"qr125", qr125, false, "qr", 16}}, "CQrEmbed # " + vh.CoqZ(qr125.P) + " " + vh.CoqZ(qr125.Q), 25, false, []*big.Int{qr125.P, qr125.Q}},
 	}
 	classes := []string{"xof", "zero", "ff", "retry", "xof", "ff-partial"}
 	for _, gset := range embedGroups {
@@ -687,6 +781,37 @@ func main() {
 			items = nil
 		}
 		n := 0
+		per := gset.per
+		// runAll runs one Embed/Pick on every implementation of the group, evaluates the
+		// oracles, compares the implementations and queues the case for the model
+		runAll := func(data []byte, pick bool, class string, buf []byte, toCoq bool) {
+			var first eres
+			for k, e := range gset.impls {
+				res, ok := c.embedOracle(e, data, pick, buf, class)
+				rep.Count(fmt.Sprintf("embed/%s/%s/%d/%s/%s", e.name, class, len(data), hexOrNil(data[:min(len(data), 40)]), vh.Hex(buf[:2*e.cand])), true)
+				if !ok {
+					continue
+				}
+				if k == 0 {
+					first = res
+				}
+				if k == 0 || !bytes.Equal(res.pt, first.pt) || res.used != first.used || !bytes.Equal(res.dat, first.dat) || res.datErr != first.datErr || !bytes.Equal(res.dat2, first.dat2) {
+					if k > 0 {
+						rep.Fail(e.name+".Embed/differs-from-"+e0.name, "two implementations of the same group disagree on Embed/Pick",
+							map[string]interface{}{"data": hexOrNil(data[:min(len(data), 64)]), "data_len": len(data), "stream_prefix": vh.Hex(buf[:128]), "a": vh.Hex(first.pt), "b": vh.Hex(res.pt), "used_a": first.used, "used_b": res.used})
+					}
+					if toCoq && !o.Search && !(pick && e.model == "bn256") { // bn256 Pick is not Embed(nil): see CBnPick
+						items = append(items, res.coq(data, buf, e.cand))
+					}
+				}
+				if n <= 2 && k == 0 {
+					rep.Sample(map[string]interface{}{"group": e.name, "data": hexOrNil(data), "stream_class": class, "point": vh.Hex(res.pt), "stream_bytes_consumed": res.used, "Data": hexOrErr(res.dat, res.datErr)})
+				}
+			}
+			if len(items) >= per {
+				flush()
+			}
+		}
 		for rnd := 0; rnd < mult; rnd++ {
 			for dl := -2; dl <= el+8; dl++ {
 				r := rng.Fork()
@@ -738,33 +863,62 @@ func main() {
 						buf[e0.cand-2], buf[e0.cand-1] = 0, byte(r.Intn(el+3))
 					}
 				}
-				var first eres
-				for k, e := range gset.impls {
-					res, ok := c.embedOracle(e, data, pick, buf, class)
-					rep.Count(fmt.Sprintf("embed/%s/%s/%s", e.name, hexOrNil(data), vh.Hex(buf[:64])), true)
-					if !ok {
-						continue
-					}
-					if k == 0 {
-						first = res
-					}
-					if k == 0 || !bytes.Equal(res.pt, first.pt) || res.used != first.used || !bytes.Equal(res.dat, first.dat) || res.datErr != first.datErr || !bytes.Equal(res.dat2, first.dat2) {
-						if k > 0 {
-							rep.Fail(e.name+".Embed/differs-from-"+e0.name, "two implementations of the same group disagree on Embed/Pick",
-								map[string]interface{}{"data": hexOrNil(data), "stream_prefix": vh.Hex(buf[:128]), "a": vh.Hex(first.pt), "b": vh.Hex(res.pt), "used_a": first.used, "used_b": res.used})
-						}
-						if !o.Search && !(pick && e.model == "bn256") { // bn256 Pick is not Embed(nil): see CBnPick
-							items = append(items, res.coq(data, buf, e.cand))
-						}
-					}
-					if n <= 2 && k == 0 {
-						rep.Sample(map[string]interface{}{"group": e.name, "data": hexOrNil(data), "stream_class": class, "point": vh.Hex(res.pt), "stream_bytes_consumed": res.used, "Data": hexOrErr(res.dat, res.datErr)})
-					}
-				}
-				if len(items) >= gset.per {
-					flush()
+				runAll(data, pick, class, buf, true)
+			}
+		}
+		// data far longer than EmbedLen: lengths around every width a length could be narrowed to
+		// (8 / 16 / 20 bits), truncation to EmbedLen must not depend on the total length
+		{
+			mid := []int{255, 256, 257, 256 + el - 1, 256 + el, 511, 512, 512 + el - 1}
+			huge := []int{65535, 65536, 65537, 65536 + el - 1, 65536 + el, 65536 + el + 1, 131072, 131073, 1<<20 + 1, 1<<20 + el - 1}
+			for i := 0; i < 2*mult; i++ {
+				huge = append(huge, 300+rng.Fork().Intn(70000), 256*(1+rng.Fork().Intn(300))+rng.Fork().Intn(el+1))
+			}
+			for rnd := 0; rnd < mult; rnd++ {
+				for _, L := range mid {
+					r := rng.Fork()
+					n++
+					runAll(r.Bytes(L), false, "xof", mkTape(r, "xof", e0.cand), !((gset.sparse || e0.model == "ed") && mult == 1 && L%2 == 1))
 				}
 			}
+			for i, L := range huge {
+				r := rng.Fork()
+				n++
+				runAll(r.Bytes(L), false, "xof", mkTape(r, "xof", e0.cand), o.Thorough && i == 2)
+			}
+			flush()
+		}
+		// candidates at the boundaries of every comparison the embedding code makes: the field
+		// prime, the group order, 0, powers of two, (non-)canonical encodings of small-order points
+		{
+			blocks := boundaryBlocks(e0, gset.bnd)
+			per = max(per, 12) // Embed(nil) on one or two candidates is cheap in the model
+			for i, blk := range blocks {
+				r := rng.Fork()
+				n++
+				toCoq := !(gset.sparse && mult == 1 && i%3 != 0) // 512-bit modexp is slow in the model: oracles only
+				// (a) the boundary value is the first candidate
+				buf := mkTape(r, "xof", e0.cand)
+				copy(buf, blk)
+				if e0.model == "p256" {
+					buf[32] = []byte{0x00, 0x80, 0x7f, 0xff}[i%4]
+				}
+				runAll(nil, i%5 == 4, "boundary", buf, toCoq)
+				if e0.model != "ed" && i%2 == 0 {
+					// the same candidate with a little data laid over its low bytes
+					runAll([]byte{0xff, byte(i)}[:1+i%2], false, "boundary", append([]byte{}, buf...), toCoq)
+				}
+				// (b) the boundary value is the second candidate, after a refused first one
+				if e0.model != "ed" || i%2 == 1 {
+					buf2 := retryTape(r, e0, nil, false, 1)
+					copy(buf2[e0.cand:], blk)
+					if e0.model == "p256" {
+						buf2[e0.cand+32] = []byte{0x80, 0x00, 0xff, 0x7f}[i%4]
+					}
+					runAll(nil, false, "boundary-2nd", buf2, toCoq)
+				}
+			}
+			flush()
 		}
 		// Data() at the boundary: Embed(nil) on streams whose every candidate carries a chosen length field
 		if e0.model != "ed" {
@@ -845,10 +999,17 @@ func main() {
 	// G1 Pick of bn256 / bn254 against the model: random scalar times the base point
 	for cv, e := range map[int]eg{1: {"bn256.G1", bn256.NewSuite().G1(), false, "bn256", 32}, 2: {"bn254.G1", bn254.NewSuite().G1(), false, "", 32}} {
 		var items []string
-		for i := 0; i < 3*mult; i++ {
+		q := order(e.name, e.g)
+		bl := boundaryInts(32, []*big.Int{q})
+		for i := 0; i < 3*mult+len(bl); i++ {
 			r := rng.Fork()
 			class := []string{"xof", "ff", "zero", "ff-partial"}[i%4]
 			buf := mkTape(r, class, e.cand)
+			if i >= 3*mult { // scalar candidates around the group order, 0, powers of two
+				class = "boundary"
+				buf = mkTape(r, "xof", e.cand)
+				copy(buf[(i%2)*e.cand:], bl[i-3*mult].FillBytes(make([]byte, 32)))
+			}
 			res, ok := c.embedOracle(e, nil, true, buf, class)
 			rep.Count(fmt.Sprintf("bnpick/%s/%s", e.name, vh.Hex(buf[:64])), true)
 			if ok {
@@ -873,10 +1034,24 @@ func main() {
 		}
 		np := 4 * mult
 		seenP := map[string]string{}
-		for i := 0; i < np; i++ {
+		var qb [][]byte
+		if pan, _ := vh.Try(func() {
+			q := order(e.name, e.g)
+			for d := int64(-1); d <= 1; d++ {
+				qb = append(qb, new(big.Int).Add(q, big.NewInt(d)).FillBytes(make([]byte, (q.BitLen()+7)/8)))
+			}
+		}); pan || e.model != "" {
+			qb = nil // Embed-capable groups get their boundary candidates above
+		}
+		for i := 0; i < np+len(qb); i++ {
 			r := rng.Fork()
 			class := []string{"xof", "zero", "ff", "xof"}[i%4]
 			buf := mkTape(r, class, e.cand)
+			if i >= np { // first candidate = group order - 1, order, order + 1
+				class = "boundary"
+				buf = mkTape(r, "xof", e.cand)
+				copy(buf, qb[i-np])
+			}
 			res, ok := c.embedOracle(e, nil, true, buf, class)
 			rep.Count(fmt.Sprintf("pick/%s/%s", e.name, vh.Hex(buf[:64])), true)
 			if !ok {
